@@ -278,6 +278,18 @@ struct s // p20
     long a; // p24
 #endif
 }; // p25
+#define AND &&
+#define OR ||
+#define EQ =
+#define PLUS +
+#define LT <
+#define QM ?
+#define CL :
+#define CM ,
+#define SH <<
+#define DOT .
+#define AR ->
+#define AND2 &&
 int v = 1 + // p26
 #if D
         2 // p27
